@@ -13,11 +13,21 @@ namespace bloch::verif {
     inline WordFn g_wordFn = nullptr;
     inline void* g_wordCtx = nullptr;
 
+    // A copy of the shipped std::mt19937 replays the numbers the original is about to produce;
+    // this engine has no state to copy, so draws taken from a copy are counted instead.
+    inline std::uint64_t g_drawsFromCopy = 0;
+
     struct Engine {
         using result_type = std::uint32_t;
         static constexpr result_type min() { return 0u; }
         static constexpr result_type max() { return 0xFFFFFFFFu; }
+        bool isCopy = false;
+        Engine() = default;
+        Engine(const Engine&) : isCopy(true) {}
+        Engine& operator=(const Engine&) { return *this; }
         result_type operator()() {
+            if (isCopy)
+                ++g_drawsFromCopy;
             if (g_wordFn)
                 return g_wordFn(g_wordCtx);
             static std::mt19937 fallback{std::random_device{}()};
